@@ -190,12 +190,15 @@ func (c *collector) Collect(ch chan<- prometheus.Metric) {
 		ch <- c.targetInfo
 	}
 
-	if c.resourceAttributesFilter != nil && len(c.resourceKeyVals.keys) == 0 {
-		c.createResourceAttributes(metrics.Resource)
+	// Read (and lazily create) the resource labels under the collector
+	// lock: concurrent scrapes would race on the field otherwise.
+	var resourceKeyVals keyVals
+	if c.resourceAttributesFilter != nil {
+		resourceKeyVals = c.createResourceAttributes(metrics.Resource)
 	}
 
 	for _, scopeMetrics := range metrics.ScopeMetrics {
-		n := len(c.resourceKeyVals.keys) + 2 // resource attrs + scope name + scope version
+		n := len(resourceKeyVals.keys) + 2 // resource attrs + scope name + scope version
 		kv := keyVals{
 			keys: make([]string, 0, n),
 			vals: make([]string, 0, n),
@@ -218,8 +221,8 @@ func (c *collector) Collect(ch chan<- prometheus.Metric) {
 			kv.vals = append(kv.vals, scopeMetrics.Scope.Name, scopeMetrics.Scope.Version)
 		}
 
-		kv.keys = append(kv.keys, c.resourceKeyVals.keys...)
-		kv.vals = append(kv.vals, c.resourceKeyVals.vals...)
+		kv.keys = append(kv.keys, resourceKeyVals.keys...)
+		kv.vals = append(kv.vals, resourceKeyVals.vals...)
 
 		for _, m := range scopeMetrics.Metrics {
 			typ := c.metricType(m)
@@ -550,13 +553,16 @@ func (c *collector) metricType(m metricdata.Metrics) *dto.MetricType {
 	return nil
 }
 
-func (c *collector) createResourceAttributes(res *resource.Resource) {
+func (c *collector) createResourceAttributes(res *resource.Resource) keyVals {
 	c.mu.Lock()
 	defer c.mu.Unlock()
 
-	resourceAttrs, _ := res.Set().Filter(c.resourceAttributesFilter)
-	resourceKeys, resourceValues := getAttrs(resourceAttrs)
-	c.resourceKeyVals = keyVals{keys: resourceKeys, vals: resourceValues}
+	if len(c.resourceKeyVals.keys) == 0 {
+		resourceAttrs, _ := res.Set().Filter(c.resourceAttributesFilter)
+		resourceKeys, resourceValues := getAttrs(resourceAttrs)
+		c.resourceKeyVals = keyVals{keys: resourceKeys, vals: resourceValues}
+	}
+	return c.resourceKeyVals
 }
 
 func (c *collector) scopeInfo(scope instrumentation.Scope) (prometheus.Metric, error) {
